@@ -257,7 +257,8 @@ Definition period_secs (f : freq) : Z :=
 Definition lookback_buffer (r : rule) : Z := r_dur r + r_interval r * period_secs (r_freq r).
 
 (* _occurrence_to_interval; None = occurrence.replace(hour=...) raises ValueError (start_seconds
-   outside 0..86399) *)
+   outside 0..86399 — not reachable from an accepted pattern: __init__ takes start_seconds from a
+   datetime's h:m:s or rejects an int time of day outside [0, 86400), see rule_accepted) *)
 Definition occurrence_to_interval (r : rule) (d : Z) : option ivl :=
   if (r_sod r <? 0) || (DAY <=? r_sod r) then None
   else
@@ -267,6 +268,9 @@ Definition occurrence_to_interval (r : rule) (d : Z) : option ivl :=
     let ws' := utc_to_wall z ts in                         (* datetime.fromtimestamp(ts, tz) *)
     let te := wall_to_utc z (ws' + r_dur r) false in       (* (window_start + timedelta).timestamp() *)
     Some (mkI (Some ts) (Some te) Plain).
+
+(* what __init__ guarantees about the fields the fetch code relies on *)
+Definition rule_accepted (r : rule) : Prop := 0 <= r_sod r < DAY.
 
 (* results of a fetch *)
 Inductive fres := Ok (l : list ivl) | Raised | OutOfFuel.
